@@ -47,6 +47,8 @@ type fwCase struct {
 	Key  string `json:"key"` // class key (for reporting)
 	// launch option classes: the SEV product (0 = the default pair Milan / Genoa)
 	Product int32 `json:"product,omitempty"`
+	// shape: the machine shape named in the TDX launch options / endorsement request
+	Shape string `json:"shape,omitempty"`
 	// tdxtypes: section type written into sections of the example (index -> type)
 	Types map[string]uint32 `json:"types,omitempty"`
 }
@@ -140,7 +142,7 @@ func buildFw(c fwCase) []byte {
 			le32(img[0x100+16+16+32*idx+24:], t)
 		}
 		return img
-	case "product":
+	case "product", "shape":
 		return fakeovmf.CleanExample(&fx.TB{}, 2*1024*1024)
 	case "tdxfv":
 		img := fakeovmf.CleanExample(&fx.TB{}, 2*1024*1024)
@@ -208,14 +210,18 @@ func runFw(raw json.RawMessage) error {
 	_, err = sev.UnsignedSnp(img, &sev.SnpEndorsementRequest{LaunchVmsas: 1, Product: p2})
 	note("UnsignedSnp", err)
 	note("ExtractFromFirmware", (&ovmf.SevData{SevEs: true, SevSnp: true}).ExtractFromFirmware(img))
-	banks := tdx.LaunchOptionsDefaultTDHOBBug("c3-standard-4").GuestRAMBanks
+	shape := "c3-standard-4"
+	if c.Kind == "shape" {
+		shape = c.Shape
+	}
+	banks := tdx.LaunchOptionsDefaultTDHOBBug(shape).GuestRAMBanks
 	_, err = tdx.MRTD(tdx.LaunchOptionsDefault(""), img)
 	note("MRTD(default)", err)
 	_, err = tdx.MRTD(&tdx.LaunchOptions{GuestRAMBanks: banks, MeasureAllRegions: true}, img)
 	note("MRTD(measure-all)", err)
 	_, err = tdx.MRTD(&tdx.LaunchOptions{GuestRAMBanks: banks, MeasureAllRegions: true, DisableUnacceptedMemory: true}, img)
 	note("MRTD(measure-all,early-accept)", err)
-	_, err = tdx.UnsignedTDX(img, &tdx.EndorsementRequest{MachineShapes: []string{"c3-standard-4"}, IncludeEarlyAccept: true})
+	_, err = tdx.UnsignedTDX(img, &tdx.EndorsementRequest{MachineShapes: []string{shape}, IncludeEarlyAccept: true})
 	note("UnsignedTDX", err)
 	_, err = ovmf.ExtractMaterialGuestPhysicalRegions(img)
 	note("ExtractMaterialGuestPhysicalRegions", err)
@@ -455,6 +461,15 @@ func RunC08(run *vk.Run) {
 			add(fwCase{Kind: "mutate", Size: size, Pos: pos, Val: []byte{0, 1, 0x7f, 0x80, 0xff, byte(r.Intn(256))}[r.Intn(6)], Key: "mutate"})
 		}
 	}
+	// machine shapes: the six the tool knows and names it does not
+	for _, sh := range []string{"c3-standard-4", "c3-standard-8", "c3-standard-22", "c3-standard-44", "c3-standard-88", "c3-standard-176", "c3-standard-5", "c3-standard-360", "n2d-standard-2", "", "x", "c3-standard-4 ", "C3-STANDARD-4"} {
+		add(fwCase{Kind: "shape", Shape: sh, Key: fmt.Sprintf("shape=%q", sh)})
+	}
+	// a hand-off block section of a few hundred bytes: around the length of the generated descriptor list
+	// (56 + 48 per descriptor) every size is either enough or refused
+	for sz := uint64(0x60); sz <= 0x400; sz += 4 {
+		add(fwCase{Kind: "tdxregion", SecType: 2, MemSize: sz, Key: "tdxregion type2 small hand-off block"})
+	}
 	// every launch option: products the enumeration knows and values it does not
 	for _, p := range []int32{0, 1, 2, 3, 4, 5, 100, 1 << 30, -1} {
 		add(fwCase{Kind: "product", Product: p, Key: fmt.Sprintf("product=%d", p)})
@@ -486,7 +501,11 @@ func RunC08(run *vk.Run) {
 		size := len(buildFw(c))
 		rep := map[string]any{"case": c, "status": cr.Status, "detail": cr.Detail, "alloc": cr.Alloc, "seconds": cr.Dur.Seconds()}
 		key := c.Kind
-		if c.Kind == "tdxregion" {
+		if c.Kind == "tdxregion" && c.MemSize <= uint64(size) {
+			// a region no larger than the image is another input class than the oversized regions of the
+			// listed findings
+			key = fmt.Sprintf("tdxregion-within-image:type%d", c.SecType)
+		} else if c.Kind == "tdxregion" {
 			key = fmt.Sprintf("tdxregion:type%d", c.SecType)
 		} else if t := oversizedTdxRegion(buildFw(c)); t != 0 {
 			// a byte mutation that lands in the memory-size field of a TD_HOB / TempMem section is the
